@@ -116,13 +116,15 @@ theorem C02.csr_toBanded_spec_rat (A : Csr Rat) (h : A.valid = true) (hnz : 0 < 
   C02L.Conv.csr_toBanded_spec_rat A h hnz
 
 /-- `SparseMatrixCSCR::convert(const MT_ &)` from CSR for every well-formed matrix — empty rows anywhere (finding D2,
-    repaired in /repo: the fill loop addresses the compressed row pointer by the compressed index) -/
+    repaired in /repo), and an entry-free source yields the entry-free CSCR container without arrays (finding D3, repaired) -/
 theorem C02.csr_toCscr_spec {α : Type} [Zero α] [Add α] (A : Csr α) (h : A.wf = true) :
-    A.toCscr.rows = A.rows ∧ A.toCscr.cols = A.cols ∧ A.toCscr.wf = true ∧
+    A.toCscr.rows = A.rows ∧ A.toCscr.cols = A.cols ∧ (A.toCscr.isArrayless = true ∨ A.toCscr.wf = true) ∧
     ∀ i j, i < A.rows → j < A.cols → A.toCscr.entry i j = A.entry i j :=
   C02L.csr_toCscr_spec A h
 
-/-- `SparseMatrixCSR::convert(const MT_ &)` from CSCR: whenever it does not abort, the result is the same matrix -/
+/-- `SparseMatrixCSR::convert(const MT_ &)` from CSCR — with empty rows anywhere (finding D6, repaired in /repo: the line
+    interface of CSCR looks the row number up in `row_numbers`): whenever it does not abort (i.e. the matrix has
+    entries), the result is the same matrix -/
 theorem C02.cscr_toCsr_spec {α : Type} [Zero α] [Add α] (A : Cscr α) (h : A.wf = true) (B : Csr α)
     (hB : A.toCsr = some B) :
     B.rows = A.rows ∧ B.cols = A.cols ∧ B.wf = true ∧
@@ -342,14 +344,13 @@ theorem C02.xclone_content {α : Type} (f : α → α) (h : Heap α) (c : Handle
 /-! ### abort freedom: the exact per-step precondition; the failures of the code as it is -/
 
 /-- `Mat.failure` — read off the operand alone (format, emptiness, sizes) — classifies the outcome of every operation
-    exactly: the model aborts iff the class is D6 / D7 / wrong permutation size, the operation does not exist iff
+    exactly: the model aborts iff the class is D10 / D7 / wrong permutation size, the operation does not exist iff
     `notApplicable`, and otherwise it yields a container -/
 theorem C02.step_classify {α : Type} [Zero α] (m : Mat α) (o : Op) :
-    (m.step o = .abort ↔ m.failure o = some .abortD6 ∨ m.failure o = some .abortD7 ∨
+    (m.step o = .abort ↔ m.failure o = some .abortD10 ∨ m.failure o = some .abortD7 ∨
       m.failure o = some .abortPermSize) ∧
     (m.step o = .bad ↔ m.failure o = some .notApplicable) ∧
-    ((∃ m', m.step o = .ok m') ↔ m.failure o = none ∨ m.failure o = some .crashD1 ∨ m.failure o = some .crashD3 ∨
-      m.failure o = some .crashD5 ∨ m.failure o = some .abortD3) :=
+    ((∃ m', m.step o = .ok m') ↔ m.failure o = none ∨ m.failure o = some .crashD5) :=
   C02L.step_classify m o
 
 /-- the code as it is (`Mat.stepCode`, what `drv_c02` prints): it yields a container iff the decidable precondition
@@ -358,22 +359,19 @@ theorem C02.stepCode_ok_iff {α : Type} [Zero α] (m : Mat α) (o : Op) :
     ((∃ m', m.stepCode o = .ok m') ↔ m.pre o = true) ∧ (∀ m', m.stepCode o = .ok m' → m.step o = .ok m') :=
   ⟨C02L.stepCode_ok_iff m o, fun m' h => C02L.stepCode_ok_eq_step m m' o h⟩
 
-/-- THE ABORT SET of the code as it is: exactly the open findings D6 (CSCR -> CSR of a matrix with an empty row or
-    without entries), D7 (CSR -> banded of an entry-free matrix), D3 with 0 rows, and a permutation of the wrong size -/
+/-- THE ABORT SET of the code as it is (after the repairs of D1, D3, D6, D9): exactly the open findings D10 (CSCR -> CSR
+    of a matrix without entries) and D7 (CSR -> banded of a matrix without entries), and a permutation of the wrong size -/
 theorem C02.stepCode_abort_iff {α : Type} [Zero α] (m : Mat α) (o : Op) :
     m.stepCode o = .abort ↔
-      (∃ B, m = .cscr B ∧ o = .tocsr ∧ (B.usedElements = 0 ∨ B.usedRows < B.rows)) ∨
+      (∃ B, m = .cscr B ∧ o = .tocsr ∧ B.usedElements = 0) ∨
       (∃ A, m = .csr A ∧ o = .tobanded ∧ A.usedElements = 0) ∨
-      (∃ A p q, m = .csr A ∧ o = .perm p q ∧ ¬(p.size = 0 ∧ q.size = 0) ∧ (p.size ≠ A.rows ∨ q.size ≠ A.cols)) ∨
-      (∃ A, m = .csr A ∧ o = .tocscr ∧ A.usedElements = 0 ∧ A.rows = 0) :=
+      (∃ A p q, m = .csr A ∧ o = .perm p q ∧ ¬(p.size = 0 ∧ q.size = 0) ∧ (p.size ≠ A.rows ∨ q.size ≠ A.cols)) :=
   C02L.stepCode_abort_iff m o
 
-/-- THE CRASH SET of the code as it is: exactly the open findings D1, D3, D5 — an entry-free CSR operand of
-    `permute` (matching sizes), of CSR -> CSCR, of the graph rebuild (the latter two with at least one row) -/
+/-- THE CRASH SET of the code as it is: exactly the open finding D5 — the graph rebuild of an entry-free CSR matrix
+    with at least one row -/
 theorem C02.stepCode_crash_iff {α : Type} [Zero α] (m : Mat α) (o : Op) :
-    m.stepCode o = .crash ↔ ∃ A, m = .csr A ∧ A.usedElements = 0 ∧
-      ((∃ p q, o = .perm p q ∧ ¬(p.size = 0 ∧ q.size = 0) ∧ p.size = A.rows ∧ q.size = A.cols) ∨
-       (o = .tocscr ∧ 0 < A.rows) ∨ (o = .graph ∧ 0 < A.rows)) :=
+    m.stepCode o = .crash ↔ ∃ A, m = .csr A ∧ o = .graph ∧ A.usedElements = 0 ∧ 0 < A.rows :=
   C02L.stepCode_crash_iff m o
 
 /-- `chain_spec` under the conjunction of the per-step preconditions (`runPre`) instead of "the chain ran through":
@@ -428,10 +426,9 @@ theorem C02.widen_back_id (x : Rat) (h : reprBits 24 x = true) (m : Mat Rat) (a 
 /-!
 ### Covered by the correspondence run only (no theorem here)
 * the failure classes of the aliased-target and extension operations (`convt`, `graphz`, BCSR `perm`: the same
-  D3 / D5 / D6 / D7 / D9 classes, judged by the oracle, not classified by a theorem);
+  D5 / D7 / D10 classes, judged by the oracle, not classified by a theorem);
 * the effect of the data-type round trip on values that are not float-representable (the model `roundDt` is compared
   with the real code on every generated value; only its fixed points are characterised by a theorem), exponent
   range / denormals, and index values ≥ 2^32 (not allocatable);
-* the inputs of the open known findings c02-edge:D1/D3/D5 (real code crashes; the model shows the intended result)
-  and D6/D7 (real code and model abort) are executed and judged on every run.
+* the inputs of the open known findings c02-edge:D5 / D7 / D10 are executed and judged on every run.
 -/
